@@ -16,15 +16,34 @@ Contract clauses evaluated on the tree sequence RETURNED by the real tsdate.date
                                            for every mutation  time[node] <= mutation time <= time[node above it in
                                            the local tree at the site]; a mutation above a root has no node above it
                                            and must only be finite and >= time[node].
+  dated-tables-form-a-tree-sequence        the call does not fail while ASSEMBLING its output: an exception raised
+                                           under get_modified_ts (typically tskit.LibraryError from
+                                           tables.tree_sequence()) means the inference finished but the dated tables
+                                           were not a valid tree sequence.  This is how the strictness defect F1
+                                           showed itself end to end, so it is a failure, not a "did not return".
+  known-mutation-on-one-ulp-branch-gets-parent-time
+                                           KNOWN defect of the unchanged code, kept apart from the clause above: when
+                                           min_branch_length is below the spacing of doubles at the node times
+                                           (default 1e-8 at times >= ~1e8) the forced pass makes a parent the next
+                                           double above its child; tskit's compute_mutation_times then places a
+                                           mutation on that branch at the midpoint, which rounds (half-to-even) to
+                                           the PARENT's time, and tables.tree_sequence() raises
+                                           TSK_ERR_MUTATION_TIME_OLDER_THAN_PARENT_NODE.  See output_failure_clause
+                                           for the exact recognition rule; every failure of this clause is that defect.
+  constrain_ages:parent-strictly-older-than-child / constrain_ages:parent-at-least-child-plus-epsilon
+                                           the two branch-length clauses evaluated directly on the real
+                                           util.constrain_ages with adversarial unconstrained ages (random order
+                                           violations, exact ties, reversed, already valid) at every time scale.
 All comparisons are exact double comparisons: the statement is an order statement, there is no tolerance.
-"Whenever date() returns": a call that raises is not a case of this property (rejections/crashes belong to C35); the
+"Whenever date() returns": a call that raises BEFORE output assembly (input rejection, the known "Use fewer rescaling
+intervals" assertion, multiple-root rejection by the discrete priors) is not a case of this property (C35); the
 number of such calls is reported in rep.notes and kept small by construction.
 
 Input space (explicit bound; deterministic given the seed):
   * exhaustive: every rooted leaf-labelled tree shape (polytomies included) with 3 and 4 leaves (4 + 26 shapes;
     thorough adds the 236 shapes with 5 leaves), random 0..2 mutations on every non-root node;
   * generated: msprime simulations (3..8 haploid samples, 1..~25 trees, discrete genome with multiple hits per site),
-    diploid individuals (for singletons_phased=False), ancient leaf samples, internal (ancestral) sample nodes,
+    diploid individuals (for singletons_phased=False), ancient leaf samples, internal (ancestral) and root sample nodes,
     a collapsed-edge polytomy, several roots (decapitated + simplified), unary nodes with allow_unary=True,
     one (quick) / four (thorough) tsinfer-inferred tree sequences run through tsdate.preprocess_ts;
   * time scales c in {1e-6, 1e-3, 1, 1e3, 1e6, 1e9, 1e12} obtained by dating with mutation_rate/c (and
@@ -35,14 +54,11 @@ Input space (explicit bound; deterministic given the seed):
     singletons_phased, max_iterations {1, 5, None}, regularise_roots; inside_outside: probability_space,
     outside_standardize, ignore_oldest_root; maximization: probability_space).
   quick  : every input x every accepting method x 2 of the 7 time scales (rotating over inputs) x 2 option draws
-           (~560 date() calls), plus ~420 direct constrain_ages calls; ~25 s.
+           (~640 date() calls), plus ~450 direct constrain_ages calls; ~30 s CPU.
   thorough: 5-leaf shapes and 4x the simulations; every input x method x all 7 scales (2 for 5-leaf shapes) x 4
-           option draws (~13 000 date() calls) plus ~10 000 direct constrain_ages calls; ~10 min.
-In addition the two branch-length clauses are evaluated directly on the real util.constrain_ages (clauses prefixed
-"constrain_ages:") with adversarial unconstrained ages (random order violations, exact ties, reversed, already valid)
-at every time scale, and a date() call that fails while ASSEMBLING its output (exception raised under
-get_modified_ts, e.g. tskit rejecting the dated tables) is a failure of clause dated-tables-form-a-tree-sequence:
-the inference finished but its result was not a valid tree sequence.
+           option draws (~14 000 date() calls) plus ~13 000 direct constrain_ages calls; ~6-10 min.
+  Inputs with ancestral/root samples are additionally dated with the mutation rate understated 10x and 50x at scales
+  1e6, 1e9, 1e12 (descendants dated older than the fixed sample, parents stacked one double apart).
 Not exhaustive beyond the tree shapes; option combinations are sampled (seeded), not crossed.
 
 NOT covered: tskit's C validation is trusted as the meaning of "valid"; inputs above a few tens of nodes; calls that
@@ -81,7 +97,7 @@ class Case:
 
     def methods(self):
         """Methods that accept this input (discrete methods need contemporaneous, simplified inputs)."""
-        if self.contemporary and not self.unary and not self.migrations:
+        if self.contemporary and not self.unary and not self.migrations and not self.tags.get("vg_only"):
             return METHODS
         return ("variational_gamma",)
 
@@ -188,6 +204,13 @@ def suite(seed, tier, want_inferred=True):
             base = _sim(s + 60 + i, n=4 + i, L=150, rec=(0 if i % 2 == 0 else 2e-4), mu=6e-4)
             cases.append(Case(f"internal-sample{r}.{i}", _mark_internal_samples(base, rng, k=1 + i % 2),
                               mu=6e-4, ne=100.0))
+        for i in range(2):  # the root itself is a (non-contemporary) sample
+            base = _sim(s + 30 + i, n=4 + i, L=150, rec=0, mu=8e-4)
+            tables = base.dump_tables()
+            flags = tables.nodes.flags
+            flags[base.first().root] |= tskit.NODE_IS_SAMPLE
+            tables.nodes.flags = flags
+            cases.append(Case(f"root-sample{r}.{i}", tables.tree_sequence(), mu=8e-4, ne=100.0))
         for i in range(2):
             cases.append(Case(f"polytomy{r}.{i}", _collapse_edge(_sim(s + 70 + i, n=5 + i, L=200, rec=0, mu=5e-4)),
                               mu=5e-4, ne=100.0))
@@ -244,7 +267,7 @@ def call_date(ts, method, mu, ne, **kw):
         frames = [f.name for f in traceback.extract_tb(e.__traceback__)]
         # "OUTPUT:" marks an error raised while the dated tables were being assembled/validated (after inference)
         where = "OUTPUT:" if "get_modified_ts" in frames else ""
-        return None, f"{where}{type(e).__name__}: {str(e)[:160]}"
+        return None, f"{where}{type(e).__name__}: {str(e)[:240]}"
 
 
 def describe(case, method, mu, ne, kw, scale=1.0):
@@ -318,6 +341,26 @@ def check_output(rep, out, ts_in, mbl, key, desc):
              expected="time[node] <= mutation time <= time[node above] (only the lower bound above a root)")
 
 
+KNOWN_ONE_ULP = "known-mutation-on-one-ulp-branch-gets-parent-time"
+
+
+def output_failure_clause(err, ts, mbl):
+    """Clause under which a failure to assemble the output is filed.  One specific condition is a recorded defect of
+    the unchanged code and is kept apart so that the generic clause stays strict on everything else:
+    min_branch_length is below the spacing of doubles at the times involved, the forced constraint therefore makes a
+    parent the very next double above its child, and tskit's compute_mutation_times puts a mutation on that branch
+    at the midpoint, which rounds to the parent's time; tskit then rejects the tables
+    (TSK_ERR_MUTATION_TIME_OLDER_THAN_PARENT_NODE).  Recognised by that error code together with
+    min_branch_length < 1.5 * spacing(100 * largest input node time): the output times are not available when
+    date() raises, so the input times (x100: the rate mis-specification used here inflates ages up to 50x) stand
+    in for them; fl(c + mbl) is the next double above c exactly when mbl < 1.5 spacing(c).  At time scales <= 1
+    (mbl >> spacing) the same error is NOT excused and fails the generic clause."""
+    if "TSK_ERR_MUTATION_TIME_OLDER_THAN_PARENT_NODE" in err or "A mutation's time must be < the parent node" in err:
+        if mbl < 1.5 * np.spacing(100.0 * float(ts.nodes_time.max())):
+            return KNOWN_ONE_ULP
+    return "dated-tables-form-a-tree-sequence"
+
+
 def constraint_active(out, mbl):
     """True if some edge's unconstrained posterior means (node metadata 'mn') violate the branch-length rule,
     i.e. the forced constraint had work to do.  Used only for the 'how non-trivial' note."""
@@ -383,6 +426,27 @@ def run(req, rep):
                  "constr_iterations/rescaling/phasing/probability-space options")
     rep.exhaustive = False
     raised, active, calls = {}, 0, 0
+
+    def evaluate(case, method, scale, mu, ne, kw, ts):
+        nonlocal active, calls
+        calls += 1
+        mbl = kw.get("min_branch_length", DEFAULT_MBL)
+        out, err = call_date(ts, method, mu, ne, **kw)
+        key = f"{case.name}|{method}|x{scale:g}|mu={mu:g}|{sorted(kw.items())}"
+        desc = describe(case, method, mu, ne, kw, scale)
+        if err is not None:
+            raised[err[:70]] = raised.get(err[:70], 0) + 1
+            if err.startswith("OUTPUT:"):
+                # inference finished, but the dated tables were rejected by tskit (or assembling them crashed):
+                # the computed output was not a valid tree sequence
+                rep.case(output_failure_clause(err, ts, mbl), False, key=key, input=desc, observed=err,
+                         expected="tables.tree_sequence() accepts the dated tables and date() returns")
+            return
+        rep.case("dated-tables-form-a-tree-sequence", True, key=key, input=desc)
+        check_output(rep, out, ts, mbl, key, desc)
+        if constraint_active(out, mbl):
+            active += 1
+
     for ci, case in enumerate(cases):
         if thorough and not case.name.startswith("shape5"):
             scales = SCALES
@@ -391,7 +455,6 @@ def run(req, rep):
         for method in case.methods():
             for si, scale in enumerate(scales):
                 ts = case.ts if scale == 1.0 else inputs.scale_times(case.ts, scale)
-                mu, ne = case.mu / scale, case.ne * scale
                 for j, kw in enumerate(method_configs(case, method, rng, ndraw)):
                     mbl = [None, 1e-8, 1e-3 * scale, 50.0 * scale][(j + si + ci) % 4]
                     ci_opt = [None, 0, 3, 100][int(rng.integers(4))]
@@ -399,23 +462,18 @@ def run(req, rep):
                         kw["min_branch_length"] = mbl
                     if ci_opt is not None:
                         kw["constr_iterations"] = ci_opt
-                    calls += 1
-                    out, err = call_date(ts, method, mu, ne, **kw)
-                    key = f"{case.name}|{method}|x{scale:g}|{sorted(kw.items())}"
-                    desc = describe(case, method, mu, ne, kw, scale)
-                    if err is not None:
-                        raised[err[:70]] = raised.get(err[:70], 0) + 1
-                        if err.startswith("OUTPUT:"):
-                            # inference finished, but the dated tables were rejected by tskit (or assembling them
-                            # crashed): the computed output was not a valid tree sequence
-                            rep.case("dated-tables-form-a-tree-sequence", False, key=key, input=desc, observed=err,
-                                     expected="tables.tree_sequence() accepts the dated tables")
-                        continue
-                    rep.case("dated-tables-form-a-tree-sequence", True, key=key, input=desc)
-                    eff = DEFAULT_MBL if mbl is None else mbl
-                    check_output(rep, out, ts, eff, key, desc)
-                    if constraint_active(out, eff):
-                        active += 1
+                    evaluate(case, method, scale, case.mu / scale, case.ne * scale, kw, ts)
+    # Ancestral samples whose descendants are dated OLDER than the fixed sample time (mutation rate understated
+    # 10x..50x): the forced pass then stacks parents directly above the sample, at large time scales one double apart.
+    for case in cases:
+        if not case.name.startswith(("internal-sample", "root-sample")):
+            continue
+        for scale in (1e6, 1e9, 1e12):
+            ts = inputs.scale_times(case.ts, scale)
+            for factor in (0.1, 0.02):
+                for it in (0, None):
+                    kw = {} if it is None else {"constr_iterations": it}
+                    evaluate(case, "variational_gamma", scale, case.mu * factor / scale, case.ne * scale, kw, ts)
     direct_constrain_ages(rep, cases, np.random.default_rng([seed, 2]), thorough)
     rep.bound = (f"{len(cases)} inputs (<= {max(c.ts.num_nodes for c in cases)} nodes, <= "
                  f"{max(c.ts.num_mutations for c in cases)} mutations), {calls} date() calls: "
